@@ -173,6 +173,16 @@ pub fn silent_items(seed: u64) -> Vec<(String, String)> {
                 }
             }
         }
+        // glued pairs of vocabulary words (one token): the compound-splitting interpreters take paths here that
+        // no correct spelling reaches
+        {
+            let pool: Vec<&String> = v.number_words.iter().step_by((v.number_words.len() / 45).max(1)).collect();
+            for a in &pool {
+                for b in &pool {
+                    add(format!("{}{}", a, b));
+                }
+            }
+        }
         // numerals beyond 2^53 (not exactly representable as f64), built from the largest scale words
         let top: &[&str] = match l { "de" => &["millionen", "billion"], "it" => &["milioni", "bilioni"], "nl" => &["miljoen", "biljoen"], "pt" => &["milhões", "biliões"], "en" => &["million", "billion"], "fr" => &["millions", "milliard"], _ => &["mil", "millones"] };
         for head in [2u64, 10, 12, 19, 123, 999] {
